@@ -42,7 +42,13 @@ class RemoveAnyNeverTransformer(cst.CSTTransformer):
   effect that all downstream code starts to get treated as unreachable.
   """
 
-  def _is_any_or_never(self, annotation: expression.Annotation | None):
+  def _is_any_or_never(self, annotation: expression.BaseExpression | None):
+    if (
+        isinstance(annotation, expression.Attribute)
+        and isinstance(annotation.value, expression.Name)
+        and annotation.value.value == "typing"
+    ):
+      annotation = annotation.attr  # typing.Any -> Any
     return (
         annotation
         and isinstance(annotation, expression.Name)
@@ -60,8 +66,11 @@ class RemoveAnyNeverTransformer(cst.CSTTransformer):
 
   def leave_AnnAssign(
       self, original_node: cst.AnnAssign, updated_node: cst.AnnAssign
-  ) -> cst.CSTNode:
-    if self._is_any_or_never(original_node.annotation):
+  ) -> cst.CSTNode | cst.RemovalSentinel:
+    if self._is_any_or_never(original_node.annotation.annotation):
+      if updated_node.value is None:
+        # `x: Any` without a value cannot become an assignment; drop it.
+        return cst.RemovalSentinel.REMOVE
       return cst.Assign(
           targets=[cst.AssignTarget(target=updated_node.target)],
           value=updated_node.value,
